@@ -83,6 +83,7 @@ type plOp struct {
 	NKeys   int // batch size class
 	KeyBase int // 0 fresh keys, 1 start again from the container's first key (repeats)
 	BadKey  int // 0 none, 1 a 32-byte key last, 2 a 34-byte key in the middle, 3 an empty key first
+	Repeat  int // 0 none, 1 the batch's first key twice in a row, 2 its first key once more at the end, 3 the last key three times in a row
 	Reps    int // commit: 0 one REP per vector, 1 nil, 2 empty, 3 one fewer, 4 one more
 	RepV    [plMaxVec + 1]int
 	Sig     int
@@ -108,6 +109,7 @@ func plGenOp(t *rapid.T) plOp {
 		op.NKeys = Weighted(t, "nkeys", []int{20, 22, 20, 14, 6, 10, 8})
 		op.KeyBase = Weighted(t, "keybase", []int{85, 15})
 		op.BadKey = Weighted(t, "badkey", []int{88, 4, 4, 4})
+		op.Repeat = Weighted(t, "repeat", []int{82, 7, 6, 5})
 		op.Sig = Weighted(t, "sig", []int{70, 4, 5, 5, 5, 4, 3, 4})
 	case plCommit:
 		op.Reps = Weighted(t, "reps", []int{68, 8, 8, 8, 8})
@@ -678,6 +680,22 @@ func (e *plEngine) build(op plOp) *plTx {
 		if start+cnt > ro.nextKey {
 			ro.nextKey = start + cnt
 			e.m.ro[op.Cont].nextKey = ro.nextKey // pool bookkeeping only, no state
+		}
+		// a key listed more than once in one batch is listed as often in the
+		// roster (what counts once is its signature, not its place in the list)
+		if len(bt.keys) > 0 {
+			switch op.Repeat {
+			case 1:
+				bt.keys = append([][]byte{bt.keys[0]}, bt.keys...)
+			case 2:
+				bt.keys = append(bt.keys, bt.keys[0])
+			case 3:
+				l := bt.keys[len(bt.keys)-1]
+				bt.keys = append(bt.keys, l, l)
+			}
+			if op.Repeat != 0 {
+				e.r.Count("probe.batch_repeats_a_key")
+			}
 		}
 		if op.BadKey != 0 {
 			fault = orStr(fault, "arg.malformed")
